@@ -283,6 +283,14 @@ def task_length():
     fn = "calculus.Integrate.lenght"
     out = []
     cases = [([(0, 0), (3, 4)], 5), ([(0, 0), (3, 4), (3, 16)], 17), ([(1, 1), (1, 6), (13, 6), (13, 1)], 22), ([(0, 0, 0), (2, 3, 6), (2, 3, 8)], 9)]
+    # a DISCONNECTED polyline (interior knot of multiplicity degree + 1 = 2): the jump between the two pieces is not part of the length
+    try:
+        Cj = curves.Curve([0, 0, 1, 2, 2, 3, 3], [np.array(q) for q in [(0, 0), (3, 4), (3, 16), (10, 16), (10, 11)]])
+        gotj = calculus.Integrate.lenght(Cj)
+        okj, detj = abs(float(gotj) - 22) <= 1e-9 * 22, "length %r of two pieces 5 + 12 and 5 (the jump of 7 between them does not count)" % (gotj,)
+    except Exception as e:
+        okj, detj = False, "%s: %s" % (type(e).__name__, str(e)[:100])
+    out.append(ob("%s:polyline[disconnected]" % fn, fn, PROVED if okj else FAILED, "B", "concrete", 0.0, detj, None if okj else dict(kind="c10.length", pts="disconnected")))
     for pts, length in cases:
         n = len(pts)
         for U in ([0, 0] + list(range(1, n - 1)) + [n - 1, n - 1], [F(0), F(0)] + [F(i * i, n * n) + F(1, 7) for i in range(1, n - 1)] + [F(2), F(2)]):
